@@ -466,6 +466,7 @@ class Kconfig(object):
         "_unset_match",
         "_warn_assign_no_prompt",
         "_deprecated_options",
+        "_resolving_defaults",
         "allowed_multi_def_choices",
         "allowed_multi_def_syms",
         "promptless_no_warn",
@@ -759,6 +760,8 @@ class Kconfig(object):
             See deprecated.py for more details.
         """
         self._deprecated_options = None
+        # Symbols and choices whose resolve_defaults() is in progress (re-entrancy guard)
+        self._resolving_defaults = set()
 
         # Regular expressions for parsing .config files
         self._set_match = re.compile(self.config_prefix + r"([^=]+)=(.*)", re.ASCII).match
@@ -4815,6 +4818,17 @@ class Symbol:
         first ask FREE to evaluate its default value and only after that, it would evaluate its own default value.
         """
 
+        # Symbols may mention each other in e.g. select/imply conditions without that being a dependency
+        # loop; do not recurse into a symbol whose defaults are already being resolved further up the stack.
+        if self in self.kconfig._resolving_defaults:
+            return
+        self.kconfig._resolving_defaults.add(self)
+        try:
+            self._resolve_defaults()
+        finally:
+            self.kconfig._resolving_defaults.discard(self)
+
+    def _resolve_defaults(self):
         # defaults_resolved: we already resolved defaults for this symbol
         # _user_value is not None: user set the value (shouldn't happen, but just in case)
         # choice: it is a choice symbol, which is resolved on choice level
@@ -6046,6 +6060,16 @@ class Choice:
         return self.visibility
 
     def resolve_defaults(self):
+        # See Symbol.resolve_defaults(): guard against re-entry through mutually referencing conditions
+        if self in self.kconfig._resolving_defaults:
+            return
+        self.kconfig._resolving_defaults.add(self)
+        try:
+            self._resolve_defaults()
+        finally:
+            self.kconfig._resolving_defaults.discard(self)
+
+    def _resolve_defaults(self):
         # if choice has a user selection but some of its symbols have default value,
         # "user-set" those symbols manually.
         # As the choice will become fully user-set, we will skip the rest of the "default value" logic.
